@@ -28,6 +28,18 @@ CHECKS['C16'] = dict(
     text='Every certificate issued by the real self_sign/sign_req/derive_cert is strictly re-read by the independent codec, its name/content/validity/key locator compared with the request and its signature verified independently under the issuing key; parse_certificate/parse_data must agree. DER signature length histogram recorded.',
     design_ref='DESIGN.md 3/C16', technique='runtime differential monitor against an independent reference codec and verifier over generated issuance requests',
     note='self_sign/sign_req read the real clock: their instants are checked within 5 s.')
+CHECKS['C04'] = dict(
+    text='Attach/detach/duplicate-attach/Interest histories are replayed on appv2, the legacy app and Dispatcher and every delivery compared with a dict longest-prefix model (exhaustive over all 256 subsets of an 8-prefix tree x 15 Interest names, plus random histories with every name representation); reply callbacks are invoked at deadline-1/0/+1 ms on a virtual clock and the face output and return value compared with the model.',
+    design_ref='DESIGN.md 3/C04', technique='runtime monitor with handler/face recorders against an executable dispatch model; virtual-time schedule control for the reply deadline',
+    note='detaching a never-attached prefix and handler exceptions are outside the statement.')
+CHECKS['C05'] = dict(
+    text='Harness-owned validator and handler invocation logs (virtual times) are checked as order constraints: payload returned only after an accepting verdict obtained before the deadline, ValidationFailure carries packet and verdict, handler invoked only after digest check and accepting validator, plain Interests never consult a validator. Full verdict x latency x parameter/signature/digest matrix in both front-ends. One open known finding (v1-validator-unbounded).',
+    design_ref='DESIGN.md 3/C05', technique='runtime trace monitor over recorded validator/handler events on a virtual-time loop',
+    note='only the only-if direction is demanded for parameterised Interests; ties at the deadline accept either outcome.')
+CHECKS['C06'] = dict(
+    text='(a) a real StreamFace.run() is fed every single cut (and all double cuts of short streams, EOF at every offset) of generated packet sequences through an asyncio.StreamReader, thorough also real unix/TCP sockets; (b) every packet kind and its byte/truncation/structural mutants are delivered (awaited) to both front-ends in empty and busy states with an exception sentinel on reception and background tasks, bystander Interests/handlers must complete afterwards; (c) malformed datagrams into a real UdpFace over loopback. One open known finding (consequence of the C07 finding).',
+    design_ref='DESIGN.md 3/C06', technique='runtime monitoring with fault injection (chunking, mutation) and exception sentinels; bystander liveness restated as bounded completion after the batch',
+    note='"legitimately addressed" is decided by the independent strict codec; LP envelopes with repeated/out-of-order headers or a reason-less Nack are ambiguous and not judged.', level='fault_enumeration')
 _ALL = ['C%02d' % i for i in range(1, 21)]
 for _p in _ALL:
     if _p not in CHECKS:
